@@ -88,7 +88,7 @@ def run_scratch(name, tier="quick", pid=None):
         print(f"{name} vs {pid} [{tier}]: PATCH DOES NOT APPLY")
         return 3, o
     t = time.time()
-    rc, o = sh(f"./check {pid} --tier {tier}", cwd=ROOT, env={"VERIF_REPO": SCRATCH}, timeout=7200)
+    rc, o = sh(f"./check {pid} --tier {tier}", cwd=ROOT, env={"VERIF_REPO": SCRATCH, "VERIF_SCRATCH_OUT": SCRATCH + ".out"}, timeout=7200)
     sh("git checkout -q -f . && git clean -fdq", cwd=SCRATCH)
     viol = [l for l in o.splitlines() if l.startswith("VIOLATION")]
     print(f"{name} vs {pid} [{tier}]: exit={rc} violations={len(viol)} wall={time.time()-t:.0f}s")
@@ -142,3 +142,18 @@ if __name__ == "__main__":
         for n in sorted(os.listdir(SEEDED)):
             if os.path.isdir(os.path.join(SEEDED, n)):
                 run(n, tier)
+    if cmd == "matrix":
+        # every stored change (both rounds) against its property's check, in a scratch worktree of /repo's HEAD; writes seeded/RESULTS.json
+        tier = sys.argv[2] if len(sys.argv) > 2 else "quick"
+        only = sys.argv[3] if len(sys.argv) > 3 else ""
+        results = {}
+        path = os.path.join(SEEDED, "RESULTS.json")
+        if only and os.path.exists(path):
+            results = json.load(open(path))
+        for n in sorted(os.listdir(SEEDED)):
+            if os.path.isdir(os.path.join(SEEDED, n)) and only in n:
+                rc, o = run_scratch(n, tier)
+                keys = sorted({l.split("key=")[1].split(" ")[0] for l in o.splitlines() if l.startswith("  key=")})
+                results[n] = {"exit": rc, "tier": tier, "violation_keys": keys[:6],
+                              "note": next((l[:200] for l in o.splitlines() if l.startswith(("HARNESS-ERROR", "INCONCLUSIVE"))), None) if rc == 2 else None}
+                json.dump(results, open(path, "w"), indent=1, sort_keys=True)
